@@ -73,6 +73,7 @@ type Clause struct {
 	E     *Expr
 	Text  string
 	Pos   string
+	Defines bool // definitional postcondition: assumed by callers, not an obligation (listed in the evidence)
 }
 
 type LoopSpec struct {
@@ -138,7 +139,7 @@ func NewSpec() *Spec {
 var clauseKeywords = map[string]bool{"func": true, "tags": true, "requires": true, "ensures": true, "assigns": true,
 	"loop": true, "invariant": true, "decreases": true, "bound": true, "ghost": true, "axiom": true, "smt": true,
 	"trusted": true, "pure": true, "maypanic": true, "package": true, "typeinv": true, "lemma": true, "note": true,
-	"nofloat": true, "fresh": true, "modifies": true, "end": true}
+	"nofloat": true, "fresh": true, "modifies": true, "end": true, "defines": true}
 
 // ReadSpecFile reads one contract file.  defaultPkg is the import path used for unqualified keys.
 func (sp *Spec) ReadSpecFile(path, defaultPkg string) error {
@@ -245,7 +246,7 @@ func (sp *Spec) ReadSpecFile(path, defaultPkg string) error {
 					cur.Assigns = append(cur.Assigns, a)
 				}
 			}
-		case "requires", "ensures":
+		case "requires", "ensures", "defines":
 			if cur == nil {
 				return fmt.Errorf("%s: %s outside func", rc.pos, rc.kw)
 			}
@@ -258,6 +259,7 @@ func (sp *Spec) ReadSpecFile(path, defaultPkg string) error {
 			} else {
 				cur.Ensures = append(cur.Ensures, c)
 			}
+			c.Defines = rc.kw == "defines"
 		case "loop":
 			n, err := strconv.Atoi(strings.Fields(rc.rest)[0])
 			if err != nil || cur == nil {
